@@ -22,6 +22,13 @@ class Boom(State):
     v: int
 
 
+class Same(State):
+    v: int
+
+
+ONE = Same(v=1)      # the one shared instance every "Same" record uses
+
+
 def _boom(lhs, rhs):
     raise RuntimeError("merge failed")
 
@@ -31,6 +38,7 @@ MERGE = {
     "Last": (Last, lambda x: Last(v=x), None),
     "Sum": (Sum, lambda x: Sum(v=x), lambda a, b: Sum(v=a.v + b.v)),
     "Boom": (Boom, lambda x: Boom(v=x), _boom),
+    "Same": (Same, lambda x: ONE, lambda a, b: Same(v=a.v + b.v)),
 }
 
 
@@ -47,6 +55,8 @@ def view_merge(cur, rec):
         return Cat(items=(*cur.items, *rec.items))
     if isinstance(rec, Sum):
         return Sum(v=cur.v + rec.v)
+    if isinstance(rec, Same):
+        return Same(v=cur.v + rec.v)
     return rec
 
 
